@@ -10,7 +10,9 @@ use binrw::BinRead;
 use binrw::BinReaderExt;
 use binrw::{BinWrite, BinWriterExt, binrw};
 
-use crate::common_file_operations::{read_bool_from, write_bool_as};
+use crate::common_file_operations::{
+    read_bool_from, read_counted_bytes, read_counted_u16s, write_bool_as,
+};
 use crate::model_vertex_declarations::{
     VERTEX_ELEMENT_SIZE, VertexDeclaration, VertexType, VertexUsage, vertex_element_parser,
     vertex_element_writer,
@@ -89,7 +91,7 @@ pub struct ModelHeader {
     string_count: u16,
     string_size: u32,
 
-    #[br(count = string_size)]
+    #[br(parse_with = read_counted_bytes, args(string_size as u64))]
     strings: Vec<u8>,
 
     radius: f32,
@@ -346,7 +348,7 @@ pub struct ModelData {
     #[brw(if(file_header.version >= 0x1000006))]
     submesh_bone_map_size_v2: u16,
 
-    #[br(count = if file_header.version >= 0x1000006 { (submesh_bone_map_size_v2 / 2) as u32 } else { submesh_bone_map_size / 2 } )]
+    #[br(parse_with = read_counted_u16s, args(if file_header.version >= 0x1000006 { (submesh_bone_map_size_v2 / 2) as u64 } else { (submesh_bone_map_size / 2) as u64 }))]
     submesh_bone_map: Vec<u16>,
 
     padding_amount: u8,
